@@ -312,10 +312,19 @@ func MakeTLSConfig(configs []*Config) (*tls.Config, error) {
 			return nil, err
 		}
 
-		// if an existing config with this hostname was already
+		// during TLS handshakes, configs are loaded based on the
+		// hostname pattern according to client's ServerName (SNI)
+		// value; the unspecified addresses are catch-alls and share
+		// the empty name
+		key := cfg.Hostname
+		if key == "0.0.0.0" || key == "::" {
+			key = ""
+		}
+
+		// if an existing config with this key was already
 		// configured, then they must be identical (or at least
 		// compatible), otherwise that is a configuration error
-		if otherConfig, ok := configMap[cfg.Hostname]; ok {
+		if otherConfig, ok := configMap[key]; ok {
 			if err := assertConfigsCompatible(cfg, otherConfig); err != nil {
 				return nil, fmt.Errorf("incompatible TLS configurations for the same SNI "+
 					"name (%s) on the same listener: %v",
@@ -326,14 +335,8 @@ func MakeTLSConfig(configs []*Config) (*tls.Config, error) {
 		// key this config by its hostname (overwrites
 		// configs with the same hostname pattern; should
 		// be OK since we already asserted they are roughly
-		// the same); during TLS handshakes, configs are
-		// loaded based on the hostname pattern according
-		// to client's ServerName (SNI) value
-		if cfg.Hostname == "0.0.0.0" || cfg.Hostname == "::" {
-			configMap[""] = cfg
-		} else {
-			configMap[cfg.Hostname] = cfg
-		}
+		// the same)
+		configMap[key] = cfg
 	}
 
 	// Is TLS disabled? By now, we know that all
